@@ -52,7 +52,7 @@ def check(ctx, rep):
     adds = []
     for (bi, si), (l, val) in se.assigns.items():
         sv = strip(val)
-        if sv[0] == "binop" and sv[1] in ("AddWithOverflow", "Add") and sv[3] == ("int", 0x30, "u8"):
+        if sv[0] == "binop" and sv[1] in ("AddWithOverflow", "Add") and (sv[3] == ("int", 0x30, "u8") or sv[2] == ("int", 0x30, "u8")):
             adds.append(bi)
     rep.check(len(adds) == 1, "transcript", HF, "ascii-offset", "digits are offset by 0x30 before hashing", "expected exactly one `+ 0x30` on the digit bytes, found %d" % len(adds), body.loc())
     # ---- 4..10 gate: both comparisons against the constants, None on the out-of-range edges, hashing only inside
@@ -144,7 +144,17 @@ def check(ctx, rep):
                         want = {("param", 2), ("field", ("param", 1), 0)}
                         ok_form = ok and c["self_ty"].len == 20 and ops == want and strip(cse.ret) == strip(c["term"]) and c["op"] == "eq"
                         why = why2
-        rep.check(ok_form, "wrapper", VF, "whole-value", "Some(h) => h == presented (all 20 bytes), None => false (map_or form)", "verification is not `hash exists and equals the presented hash`: " + why, vb.loc())
+        if not ok_form:
+            # Option form: calculate_hash(..) == Some(*presented): equal iff a hash exists and
+            # all 20 bytes agree (derived PartialEq of Option<[u8; 20]>)
+            for c in cmps:
+                ops = [strip(a) for a in c["args"]]
+                some_p = ("agg", "adt", "std::option::Option", 1, (("param", 5),))
+                sty = c["self_ty"]
+                is_opt20 = sty is not None and sty.s.replace(" ", "") in ("std::option::Option<[u8;20]>",)
+                if set(ops) == {strip(hc["term"]), some_p} and is_opt20 and c["op"] == "eq" and strip(vse.ret) == strip(c["term"]) and (c["rhs_ty"] is None or c["rhs_ty"].s == sty.s):
+                    ok_form = True
+        rep.check(ok_form, "wrapper", VF, "whole-value", "Some(h) => h == presented (all 20 bytes), None => false (map_or / Option equality form)", "verification is not `hash exists and equals the presented hash`: " + why, vb.loc())
         rep.check(ok_form, "wrapper", VF, "result", "true only as the result of == on an existing hash; false when no hash exists", "returned boolean is not `Some(h) => h == presented, None => false`", vb.loc())
         return
     c = good_cmp[0]
